@@ -47,7 +47,8 @@ MODES = {
                           closable=True, base_url="/"),
     "mergetool": dict(mergetool_args=dict(base="a.ipynb", local="b.ipynb", remote="c.ipynb"), closable=True, base_url="/"),
     "mergetool_badfile": dict(mergetool_args=dict(base="a.ipynb", local="notnb.txt", remote="c.ipynb"), closable=True, base_url="/"),
-    "mergeweb_out": dict(outputfilename="out.ipynb", closable=False, base_url="/nbdime/"),
+    # a base URL with a regular expression metacharacter (a JupyterHub style prefix such as /user/a.b/)
+    "mergeweb_out": dict(outputfilename="out.ipynb", closable=False, base_url="/nb.dime/"),
 }
 NB = {}
 
@@ -65,7 +66,8 @@ def build_notebooks():
             nb["cells"][int(i[1:])][f] = v
         return concretize.concrete(nb)
     nbs = {1: concretize.concrete(base), 2: ed(c0_src=1, c2_outs=6, c1_att=2), 3: ed(c0_src=2, c1_src=1, c2_ec=1),
-           5: ed(c1_src=2), 6: ed(c0_src=3, c0_outs=0), 7: ed(c2_src=1, c1_md=2)}
+           5: ed(c1_src=2), 6: ed(c0_src=3, c0_outs=0), 7: ed(c2_src=1, c1_md=2), 8: ed(c0_src=2)}
+    nbs[8]["cells"][0]["source"] += "s = '\ud800'  # an unpaired surrogate\n"
     return nbs
 
 
@@ -102,7 +104,7 @@ def content_id(name, data):
         nb = nbformat.reads(data.decode("utf8"), as_version=4)
     except Exception:
         return -1
-    for cid in (6, 7):
+    for cid in (6, 7, 8):
         if canon(to_plain(nb)) == canon(to_plain(nbformat.reads(nbformat.writes(NB[cid]), as_version=4))):
             return cid
     return -1
@@ -131,8 +133,13 @@ def request_of(name, prefix):
         "store_notnb": ("store", j({"merged": 5})),
         "close": ("closetool", j({"exitCode": 0})),
         "unknown_route": ("nope", j({})),
+        "store_surrogate": ("store", j({"merged": to_plain(NB[8])})),       # ensure_ascii: the surrogate travels as \ud800
+        "near_route": ("diff", j({"base": "a.ipynb", "remote": "b.ipynb"})),
     }
     ep, body = table[name]
+    if name == "near_route":
+        p = api + ep
+        return "POST", (p.replace(".", "X", 1) if "." in p else p.replace("/api/", "/apiX")), body
     return "POST", api + ep, body
 
 
@@ -223,6 +230,13 @@ def replay(task):
                 sc = "ok"             # the loop may stop before the response is delivered
             prefix_desc = {"mode": mode, "requests": reqs[:j + 1]}
             alt = step.get("alt") if isinstance(step.get("alt"), list) else []
+            if step["req"] == "store_surrogate" and sc == "ok" and "ok" in alt:
+                # accepted: the output file must hold the submitted notebook, nothing else may have changed
+                disk = {f: content_id(f, data) for f, data in obs["listing"].items()}
+                want = dict(step["disk"], **{"out.ipynb": 8})
+                if disk != want:
+                    problems.append(("disk:%s:store_surrogate" % mode, "store answered ok but the directory is %s" % disk, prefix_desc))
+                break
             if sc != step["resp"] and sc not in alt:
                 problems.append(("status:%s:%s:expected-%s-got-%s" % (mode, step["req"], step["resp"], sc),
                                  "request %s answered %s (HTTP %s), the model says %s" % (step["req"], sc, obs["status"], step["resp"]),
